@@ -59,26 +59,13 @@ func genC10Sched(t *rapid.T) *c10SchedCase {
 	return c
 }
 
-// withWatchdog runs f and reports a hang instead of blocking forever.
-func withWatchdog(limit time.Duration, f func() error) error {
-	ch := make(chan error, 1)
-	go func() {
-		defer func() {
-			if p := recover(); p != nil {
-				ch <- fmt.Errorf("panic: %v\n%s", p, stackTrace())
-			}
-		}()
-		ch <- f()
-	}()
-	select {
-	case err := <-ch:
-		return err
-	case <-time.After(limit):
-		buf := make([]byte, 1<<16)
-		n := runtime.Stack(buf, true)
-		return fmt.Errorf("WATCHDOG: no result after %v (deadlock or lost wake-up?)\n%s", limit, buf[:n])
-	}
-}
+// withWatchdog runs f and reports a hang instead of blocking forever. It tells a hang from a
+// loaded machine (core.Guard): a deadlock shows as a process that no longer uses CPU; otherwise f
+// may take up to 200x the reference duration ref (the same work measured just before). Without a
+// reference a run that is merely slow ends the case as inconclusive (errSlow).
+var errSlow = core.ErrTimeBudget
+
+func withWatchdog(limit, ref time.Duration, f func() error) error { return core.Guard(limit, ref, f) }
 
 func checkC10Sched(c *c10SchedCase, o *core.Obs) error {
 	hookMu.Lock()
@@ -94,13 +81,19 @@ func checkC10Sched(c *c10SchedCase, o *core.Obs) error {
 		return n
 	}
 	var base []byte
-	err := withWatchdog(90*time.Second, func() error {
+	t0 := time.Now()
+	err := withWatchdog(90*time.Second, 0, func() error {
 		flushPools()
 		var e error
 		base, e = encodeImg(img, c.Opts)
 		return e
 	})
+	baseDur := time.Since(t0)
 	verifhook.OnWorkers = nil
+	if err == errSlow {
+		o.Inconclusive("single-worker Encode exceeded the time budget on this machine")
+		return nil
+	}
 	if err != nil {
 		return fmt.Errorf("single-worker Encode: %v", err)
 	}
@@ -137,7 +130,7 @@ func checkC10Sched(c *c10SchedCase, o *core.Obs) error {
 		}
 	}
 	var got []byte
-	err = withWatchdog(90*time.Second, func() error {
+	err = withWatchdog(90*time.Second, baseDur+time.Second, func() error {
 		flushPools()
 		var e error
 		got, e = encodeImg(img, c.Opts)
@@ -192,7 +185,8 @@ func checkC10Conc(c *c10ConcCase, o *core.Obs) error {
 	defer runtime.GOMAXPROCS(old)
 	// expectations: every call alone, from a fresh state
 	exp := make([][]string, len(c.Lists))
-	if err := withWatchdog(180*time.Second, func() error {
+	t0 := time.Now()
+	if err := withWatchdog(180*time.Second, 0, func() error {
 		for i, l := range c.Lists {
 			for k := range l {
 				flushPools()
@@ -200,9 +194,13 @@ func checkC10Conc(c *c10ConcCase, o *core.Obs) error {
 			}
 		}
 		return nil
-	}); err != nil {
+	}); err == errSlow {
+		o.Inconclusive("stand-alone expectations exceeded the time budget on this machine")
+		return nil
+	} else if err != nil {
 		return fmt.Errorf("sequential expectations: %v", err)
 	}
+	seqDur := time.Since(t0)
 	var hits int64
 	var hmu sync.Mutex
 	verifhook.OnPool = func(name string, hit bool) {
@@ -215,7 +213,7 @@ func checkC10Conc(c *c10ConcCase, o *core.Obs) error {
 	defer func() { verifhook.OnPool = nil }()
 	flushPools()
 	errs := make([]error, len(c.Lists))
-	err := withWatchdog(180*time.Second, func() error {
+	err := withWatchdog(180*time.Second, seqDur+time.Second, func() error {
 		var wg sync.WaitGroup
 		start := make(chan struct{})
 		for i := range c.Lists {
@@ -314,6 +312,7 @@ func checkC10LL(c *c10LLCase, o *core.Obs) error {
 	// reference: every parallel site pinned to one worker
 	verifhook.OnWorkers = func(site string, n int) int { return 1 }
 	flushPools()
+	t0 := time.Now()
 	ref, err := encodeImg(img, c.C12.Opts)
 	var refPix []byte
 	if err == nil {
@@ -339,7 +338,8 @@ func checkC10LL(c *c10LLCase, o *core.Obs) error {
 	}
 	defer func() { verifhook.OnWorkers = nil }()
 	errs := make([]error, c.Goroutines)
-	werr := withWatchdog(240*time.Second, func() error {
+	refDur := time.Since(t0)
+	werr := withWatchdog(240*time.Second, 2*time.Duration(c.Goroutines)*refDur+time.Second, func() error {
 		var wg sync.WaitGroup
 		for g := 0; g < c.Goroutines; g++ {
 			wg.Add(1)
